@@ -69,13 +69,7 @@ def check_g4(pid, tier):
         for dn in ("nocopy_list", "nocopy_dict", "nocopy_both"):
             payloads += [(pid, t, dn, "enc") for t in types if any(k in t for k in ("List", "list", "Dict", "dict", "Sequence", "Mapping"))][: (40 if tier == "quick" else 100000)]
     results = runner.run_pool(g4.g4_task, payloads, chunks=2)
-    obs, crashes, trusted = [], [], set()
-    for r in results:
-        if "crash" in r:
-            crashes.append(r["crash"] + " @ " + r["payload"] + "\n" + r["trace"][-600:])
-            continue
-        obs.extend(r["obligations"])
-        trusted.update(r.get("trusted", ()))
+    obs, crashes, trusted = _collect(results)
     what = "REF_ENC" if pid == "C02" else "REF_DEC"
     return runner.finish(
         pid, tier, obs, t0,
@@ -90,7 +84,88 @@ def check_g4(pid, tier):
     )
 
 
-CHECKS = {"C02": check_g4, "C03": check_g4, "C05": check_g1, "C07": check_g1, "C09": check_g1, "C08": check_g2}
+def _collect(results):
+    obs, crashes, trusted = [], [], set()
+    for r in results:
+        if "crash" in r:
+            crashes.append(r["crash"] + " @ " + r["payload"] + "\n" + r["trace"][-600:])
+            continue
+        obs.extend(r["obligations"])
+        trusted.update(r.get("trusted", ()))
+    return obs, crashes, trusted
+
+
+def _is_container(t):
+    return any(k in t for k in ("List", "list", "Dict", "dict", "Sequence", "Mapping", "Set", "set", "Tuple", "tuple", "deque", "Deque",
+                                "ChainMap", "Counter", "OrderedDict", "NT", "TD", "MappingProxy"))
+
+
+def check_c18(pid, tier):
+    from . import g4
+
+    t0 = time.time()
+    types = [t for t in g4.type_lattice(tier) if _is_container(t)]
+    if tier == "quick":
+        # quick: depth <= 1 for every container constructor, depth 2 for list/dict/Optional nests
+        types = [t for t in types if t.count("[") <= 1 or t.startswith(("List[", "Dict[", "Optional["))]
+    payloads = []
+    for dn in g4.DIALECTS:
+        sel = types if (dn == "default" or tier == "thorough") else [t for t in types if any(k in t for k in ("List", "list", "Dict", "dict", "Sequence", "Mapping"))]
+        payloads += [(pid, t, dn, "both") for t in sel]
+    res1 = runner.run_pool(g4.g4_task, payloads, chunks=2)
+    # (dataclass elements under a codec default dialect are compiled for that dialect: C13's subject)
+    cod = [(pid, t, dn) for dn in g4.DIALECTS for t in (types[:24] if tier == "quick" else types) if dn == "default" or "D1" not in t]
+    res2 = runner.run_pool(g4.codec_task, cod, chunks=2)
+    obs, crashes, trusted = _collect(res1 + res2)
+    return runner.finish(
+        pid, tier, obs, t0,
+        technique="ownership judgement inside the REF equality (fresh copy vs the input object itself; aliasing is accepted only where REF_ENC under no_copy_collections returns the input) on the harvested code of every container template, plus syntactic frame obligations (no store into / mutating call on anything reached from a parameter) on every generated function; z3",
+        units=len(payloads) + len(cod),
+        extra_cov={"types": len(types), "dialects": list(g4.DIALECTS),
+                   "explanation": "per type x dialect: ref_enc / ref_dec obligations in identity mode and one frame obligation over all generated functions of the schema; codec encode/decode units likewise"},
+        trusted=trusted | {"A4: table of mutating method names used by the frame scan", "hooks and hole methods do not mutate their arguments (A2)"},
+        functions=["<generated> to_dict/from_dict/encode/decode and helper functions for container-typed positions"],
+        crashes=crashes,
+    )
+
+
+def check_c15(pid, tier):
+    from . import g1, g4
+
+    t0 = time.time()
+    types = g4.type_lattice("quick")
+    if tier == "quick":
+        types = [t for t in types if t.count("[") <= 1]
+    # bare TypeVars and Final[...] are field annotations, not codec shapes
+    cod = [(pid, t, "default") for t in types if t not in ("TV", "TVA") and not t.startswith("Final[")]
+    res2 = runner.run_pool(g4.codec_task, cod, chunks=2)
+    # dataclass shapes: mixin and plain twins against the same FROM_SPEC
+    pts = []
+    for p in g1.lattice_c05("quick"):
+        if len(p.fields) <= 2 and not p.forbid_extra_keys and not p.pre_hook and not p.post_hook and not p.dialect_support:
+            pts.append(g1.Point(p.fields, base="mixin"))
+            pts.append(g1.Point(p.fields, base="plain"))
+    seen, upts = set(), []
+    for p in pts:
+        if p.label() not in seen:
+            seen.add(p.label())
+            upts.append(p)
+    res1 = runner.run_pool(g1.g1_task, [(pid, p) for p in upts], chunks=4)
+    obs, crashes, trusted = _collect(res1 + res2)
+    return runner.finish(
+        pid, tier, obs, t0,
+        technique="relational claims via a shared reference term: the codec encode/decode unit of T, the unit for List[T] (elementwise), the mixin method and the holder function of a plain dataclass are each proved equal to the same REF_ENC/REF_DEC/FROM_SPEC (pysym + z3), hence to each other; slot (frame) obligations on every module-level statement of the harvested texts",
+        units=len(cod) + len(upts),
+        extra_cov={"types": len(types), "dataclass_points": len(upts),
+                   "explanation": "per type: DEC, ENC, DECL (List[T]), ENCL obligations + slots; per dataclass point: mixin and plain twin against FROM_SPEC"},
+        trusted=trusted | {"a conforming value of exactly the annotated dataclass: x.m() is D.m(x) (Python method resolution)",
+                           "two units compiled for the same (class, method, dialect) are interchangeable callees: each is separately proved against the dataclass contract"},
+        functions=["CodecCodeBuilder.add_decode_method / add_encode_method (generated decode/encode)", "<generated> holder functions of plain dataclasses"],
+        crashes=crashes,
+    )
+
+
+CHECKS = {"C15": check_c15, "C18": check_c18, "C02": check_g4, "C03": check_g4, "C05": check_g1, "C07": check_g1, "C09": check_g1, "C08": check_g2}
 
 
 def main(argv):
